@@ -141,6 +141,43 @@ def seqA(E, k, w, a, L, steps):
         hook.enable(False)
 
 
+def foliated(E, k, w, a):
+    """interchange on diagrams whose boxes are themselves diagrams (the
+    slices of a foliation)"""
+    from discopy import monoidal
+    from discopy.rewriting import InterchangerError
+    shape = E.choice('shape', ['foliation', 'side-by-side'])
+    if shape == 'foliation':
+        d = gen.modea_diagram(E, 'a', k, w, a, [monoidal.Ob('x')])
+        f = d.foliation()
+    else:
+        # two composite diagrams used as boxes, one whiskered after the other
+        c1 = gen.modea_diagram(E, 'a', 2, 2, a, [monoidal.Ob('x')])
+        c2 = gen.modea_diagram(E, 'b', 1, 2, a, [monoidal.Ob('y')])
+        first = E.choice('first', ['left', 'right'])
+        dom, cod = c1.dom @ c2.dom, c1.cod @ c2.cod
+        if first == 'left':
+            f = monoidal.Diagram(dom, cod, [c1, c2], [0, len(c1.cod)])
+        else:
+            f = monoidal.Diagram(dom, cod, [c2, c1], [len(c1.dom), 0])
+    n = len(f.boxes)
+    if n < 2:
+        raise Abort()
+    p = E.choice('p', range(n - 1))
+    left = E.choice('left', [False, True])
+    up = E.choice('up', [True, False])
+    legal = OR(*[c for c, _, _ in ref_options(f, p)])
+    try:
+        r = f.interchange(*((p, p + 1) if up else (p + 1, p)), left=left)
+    except InterchangerError:
+        E.cover("refused")
+        E.check(NOT(legal), "C05:foliated:refused-legal-exchange")
+        return
+    E.cover("moved")
+    E.check(legal, "C05:foliated:accepted-connected")
+    check_adjacent(E, f, r, p, "C05:foliated")
+
+
 def harnesses(tier):
     q = tier == "quick"
     T = 600 if q else 900
@@ -159,6 +196,13 @@ def harnesses(tier):
                     bounds="Mode B: interchange(i, j) with i, j symbolic in "
                     "[-k-1, k+1], %d boxes, widths <= %d" % (k, N),
                     outside="more boxes, wider types", timeout_s=T))
+    hs.append(H("foliated", foliated, dict(k=3 if q else 4, w=3, a=2), FUNCS
+                + ["discopy.rewriting.foliation", "discopy.rewriting.foliate"],
+                covers=["refused", "moved"], engine="DSE (choices)",
+                bounds="foliations of diagrams of %d boxes (width <= 3, arity "
+                "<= 2, 2 labels): adjacent interchange of slices, i.e. of "
+                "boxes that are composite diagrams" % (3 if q else 4),
+                timeout_s=T))
     k, w, a, L, steps = (3, 2, 1, 2, 2) if q else (3, 3, 2, 2, 3)
     hs.append(H("seqA", seqA, dict(k=k, w=w, a=a, L=L, steps=steps), FUNCS,
                 covers=["refused", "moved"], modeb=True,
